@@ -39,3 +39,60 @@ Proof.
 Qed.
 End DCP.
 Print Assumptions obj_select_entries.
+
+(* concatenation: the table of the concatenated object is the concatenation of the tables *)
+Section DCC.
+Variable E : Type.
+Variable d : E.
+
+Lemma transpose_cols_nth (os : list (obj E)) : forall n,
+  transpose_cols E os n = map (fun j => concat (map (fun o => nth j o []) os)) (seq 0 n).
+Proof.
+  intros n. revert os. induction n as [|n IH]; intros os; [reflexivity|].
+  cbn [transpose_cols]. rewrite IH. cbn [seq map]. f_equal.
+  - f_equal. apply map_ext. intros o. now destruct o.
+  - rewrite <- seq_shift, map_map. apply map_ext. intros j. f_equal. rewrite map_map. apply map_ext. intros o. destruct o; [destruct j|]; reflexivity.
+Qed.
+
+Lemma nth_cols k (R : list (list E)) j : (j < k)%nat -> nth j (cols E d k R) [] = map (fun row => nth j row d) R.
+Proof.
+  intros Hj. unfold cols.
+  set (g := fun j0 : nat => map (fun row : list E => nth j0 row d) R).
+  rewrite (nth_indep (map g (seq 0 k)) [] (g 0%nat)) by (now rewrite map_length, seq_length).
+  rewrite map_nth. unfold g. now rewrite seq_nth.
+Qed.
+
+Lemma cols_length k R : length (cols E d k R) = k.
+Proof. unfold cols. now rewrite map_length, seq_length. Qed.
+
+(* np.concatenate([objects]): field-wise concatenation = concatenation of the entry tables *)
+Theorem obj_concat_entries (k : nat) (Rs : list (list (list E))) : Rs <> [] ->
+  obj_concat E (map (cols E d k) Rs) = cols E d k (concat Rs).
+Proof.
+  intros Hne. unfold obj_concat. destruct Rs as [|R0 Rs]; [congruence|]. cbn [map]. rewrite cols_length.
+  rewrite transpose_cols_nth. unfold cols at 3. apply map_ext_in. intros j Hj. apply in_seq in Hj.
+  change (cols E d k R0 :: map (cols E d k) Rs) with (map (cols E d k) (R0 :: Rs)).
+  rewrite map_map. rewrite (map_ext_in _ (fun R => map (fun row => nth j row d) R)) by (intros R _; apply nth_cols; lia).
+  generalize (R0 :: Rs) as L. induction L as [|R L IH]; [reflexivity|]. cbn [map concat]. now rewrite map_app, IH.
+Qed.
+
+(* equality: true exactly when every field is cell-wise equal and of the same length (for a decidable element equality) *)
+Variable eqb : E -> E -> bool.
+Hypothesis eqb_spec : forall x y, eqb x y = true <-> x = y.
+Lemma list_eqb_iff a b : list_eqb E eqb a b = true <-> a = b.
+Proof.
+  revert b; induction a as [|x a IH]; intros [|y b]; cbn [list_eqb]; try (split; [discriminate|congruence]); [split; reflexivity|].
+  rewrite andb_true_iff, eqb_spec, IH. split; [intros [-> ->]; reflexivity|intros H; inversion H; auto].
+Qed.
+Theorem obj_eqb_iff (o o' : obj E) : length o = length o' -> (obj_eqb E eqb o o' = true <-> o = o').
+Proof.
+  revert o'; induction o as [|f o IH]; intros [|g o'] Hl; cbn in Hl; try discriminate; cbn [obj_eqb]; [split; reflexivity|].
+  rewrite andb_true_iff, list_eqb_iff, IH by lia. split; [intros [-> ->]; reflexivity|intros H; inversion H; auto].
+Qed.
+End DCC.
+
+(* VarLenArray concatenation: every row is right-aligned in the widest width and padded with zeros on the left *)
+Theorem varlen_rows (blocks : list (list (list Z))) :
+  let W := fold_left Z.max (map (fun b => match b with [] => 0 | r :: _ => zlen r end) blocks) 0 in
+  varlen_concat blocks = concat (map (map (fun r => repeat 0 (Z.to_nat (W - zlen r)) ++ r)) blocks).
+Proof. cbn zeta. unfold varlen_concat. now rewrite flat_map_concat_map. Qed.
